@@ -16,6 +16,7 @@ import Fbr.Lemmas.OvlRmdirB
 import Fbr.Lemmas.OvlEffects
 import Fbr.Lemmas.OvlAttrOps
 import Fbr.Lemmas.OvlLink
+import Fbr.Lemmas.OvlFrameOps
 
 namespace Fbr.Thm.C10
 open Fbr.Ovl
@@ -293,13 +294,19 @@ theorem readonly_op_refines_plain_fs (d : Disk) (hr : d.RootsOK) (ht : d.TreesOK
         (the old entry changed as chmod(2) / ftruncate(2) / pwrite(2) / open(O_TRUNC) / setxattr(2)
         change it, with type, mode, content and target carried over a copy-up);
     (3) every operation, successful or failed, keeps live view = union (`view_is_merge`).
-    NOT proved in Lean (the reason for `_partial`): that a modifying operation leaves the union
-    at all OTHER paths unchanged, that a failed modifying operation leaves the union unchanged,
-    and which errno an operation answers.  The first two are false as stated for the `user.*`
-    xattrs of entries that get copied up (known finding `C10:copy-up:xattr-lost`), the view type
-    carries no inode identity (hard-link aliasing of chmod/write cannot be expressed), and for
-    file copy-up the model would need an "inode ids on disk are below `nextId`" invariant.  Those
-    parts rest on the harness's ordinary-directory reference run (`C10:not-plain-fs:*`). -/
+    (4) the FRAME for the six operations that only add or remove a name (create, mkdir, mknod,
+        symlink, unlink, rmdir), successful or failed: the union at every path outside the target's
+        subtree is unchanged up to xattrs (`namespace_op_frame`); a failed unlink / rmdir changes
+        the union nowhere (`failed_remove_changes_nothing`).
+    NOT proved in Lean (the reason for `_partial`): the frame for link and for the six
+    attribute-changing operations (chmod, truncate, write, open-for-write, setxattr,
+    removexattr: that the union at all OTHER paths is unchanged), and which errno an operation
+    answers.  The frame holds only up to the `user.*` xattrs of entries that get copied up (known
+    finding `C10:copy-up:xattr-lost`); for the attribute-changing operations and link it is in
+    addition not expressible over this view type, which carries no inode identity (a chmod or
+    write through one hard link is visible through the other), and file copy-up would need an
+    "inode ids on disk are below `nextId`" invariant in the model.  Those parts rest on the
+    harness's ordinary-directory reference run (`C10:not-plain-fs:*`). -/
 theorem op_refines_plain_fs_partial (d : Disk) (hr : d.RootsOK) (ht : d.TreesOK) (ops : List Op)
     (hops : ∀ op ∈ ops, op.isModifying = false) (op : Op) (hop : op.isModifying = false) :
     merge (runOp op (run (importFs d) ops)).st.disk = merge d := by
@@ -409,6 +416,40 @@ theorem link_refines_plain_fs (s : St) (hc : Consistent s) (src dst : List Name)
   · cases X <;> simp_all [viewOfStat, Node.view, Node.isWhiteout, Node.isAbsent]
   · intro m x
     cases X <;> simp_all [viewOfStat, Node.view, Node.isDir]
+
+/-- THE FRAME of the six operations that only add or remove a name (create, mkdir, mknod,
+    symlink, unlink, rmdir) with target path `p`: whether the operation succeeds or fails, the
+    union at EVERY path that is not `p` or below `p` is what it was — up to `user.x` xattrs
+    (`dropX`), because parent directories that exist only in lower layers are copied up without
+    their xattrs (known finding `C10:copy-up:xattr-lost:dir`).  Together with the target-path
+    theorems above (`create_` … `rmdir_refines_plain_fs`) this is the complete plain-file-system
+    refinement statement for these operations, modulo that xattr loss: the copy-up of any chain
+    of missing parents, the deletion of upper whiteouts by `empty_node_directory`, the new
+    whiteout or opaque marker are all invisible in the union. -/
+theorem namespace_op_frame (s : St) (hc : Consistent s) (op : Op) (p : List Name)
+    (hop : op = .unlink p ∨ op = .rmdir p ∨ (∃ mode, op = .create p mode) ∨ (∃ mode, op = .mkdir p mode) ∨
+      (∃ mode, op = .mknod p mode) ∨ (∃ t, op = .symlink p t)) (q : Path)
+    (hq : p.reverse.isSuffixOf q = false) :
+    (merge (runOp op s).st.disk q).dropX = (merge s.disk q).dropX := by
+  have key : Triple (CD s.disk) (runOp op) (fun _ s' => FrameD s.disk s'.disk p.reverse)
+      (fun s' => FrameD s.disk s'.disk p.reverse) := by
+    rcases hop with rfl | rfl | ⟨mode, rfl⟩ | ⟨mode, rfl⟩ | ⟨mode, rfl⟩ | ⟨t, rfl⟩
+    · exact (runOp_unlink_frame s.disk p).conseq (fun _ h => h) (fun _ _ h => h.2) (fun _ h => h.2.frame _)
+    · exact (runOp_rmdir_frame s.disk p).conseq (fun _ h => h) (fun _ _ h => h.2) (fun _ h => h.2.frame _)
+    · exact (runOp_create_frame s.disk p mode).conseq (fun _ h => h) (fun _ _ h => h.2) (fun _ h => h.2)
+    · exact (runOp_mkdir_frame s.disk p mode).conseq (fun _ h => h) (fun _ _ h => h.2) (fun _ h => h.2)
+    · exact (runOp_mknod_frame s.disk p mode).conseq (fun _ h => h) (fun _ _ h => h.2) (fun _ h => h.2)
+    · exact (runOp_symlink_frame s.disk p t).conseq (fun _ h => h) (fun _ _ h => h.2) (fun _ h => h.2)
+  exact key.st ⟨hc, rfl⟩ q hq
+
+/-- a FAILED unlink or rmdir leaves the union unchanged at every path, up to xattrs (it may have
+    copied parent directories up before failing) -/
+theorem failed_remove_changes_nothing (s : St) (hc : Consistent s) (op : Op) (p : List Name)
+    (hop : op = .unlink p ∨ op = .rmdir p) (e : Nat) (s' : St) (h : runOp op s = .err e s') (q : Path) :
+    (merge s'.disk q).dropX = (merge s.disk q).dropX := by
+  rcases hop with rfl | rfl
+  · exact ((runOp_unlink_frame s.disk p s ⟨hc, rfl⟩).2 e s' h).2 q
+  · exact ((runOp_rmdir_frame s.disk p s ⟨hc, rfl⟩).2 e s' h).2 q
 
 /-! The attribute-changing operations.  `ViewChanged d d' q gv` (Fbr.Lemmas.OvlAttrOps): at `q` the
     union of `d'` shows `gv w`, where `w` is what the union of `d` showed up to the `user.x` xattr
